@@ -88,7 +88,8 @@ func refWantsCoding(ae string) (gz, df bool) {
 }
 
 // H_C07: encoded responses decode to exactly what was written, and are labelled so.
-// entry: 0 Dispatch, 1 ServeHTTP, 2 Handle, 3 HandleWithFilter
+// entry: 0 Dispatch, 1 ServeHTTP, 2 Handle, 3 HandleWithFilter, 4 ServeHTTP of an outer container (encoding on, one
+// filter) that forwards to this container with HandleWithFilter
 // cenc: container encoding 0/1; renc: route setting 0 unset, 1 off, 2 on
 // kind: 0 handler writes, 1 routing error, 2 panic before output (recovery on), 3 panic after partial output (recovery on)
 // provider: 0 sync.Pool, 1 bounded cache (1,1), 2 bounded cache (0,0)
@@ -155,12 +156,21 @@ func H_C07(entry, cenc, renc, kind, provider int) {
 		path = "/t/nomatch"
 		expected = "404: Page Not Found"
 	}
-	if entry >= 2 {
+	if entry == 2 || entry == 3 {
 		path = "/plain"
 	}
 	rec := vNewRec()
 	if preset {
 		rec.hdr.Set("Content-Encoding", "identity")
+	}
+	// a client that has gone away: every write to the underlying writer fails
+	rec.broken = nondetBool("broken")
+	var outer *Container
+	if entry == 4 {
+		outer = NewContainer()
+		outer.EnableContentEncoding(true)
+		outer.Filter(func(req *Request, resp *Response, chain *FilterChain) { chain.ProcessFilter(req, resp) })
+		outer.HandleWithFilter("/t/", c)
 	}
 	fp := verifFingerprint(c)
 	if nondetBool("warmup") {
@@ -184,12 +194,20 @@ func H_C07(entry, cenc, renc, kind, provider int) {
 		}()
 		if entry == 0 {
 			c.Dispatch(rec, req)
+		} else if entry == 4 {
+			outer.ServeHTTP(rec, req)
 		} else {
 			c.ServeHTTP(rec, req)
 		}
 	}()
 	verifFrameEnd()
-	if kind >= 2 && entry <= 1 {
+	if rec.broken {
+		// nothing reaches the client; what remains to be checked is the compressor ledger
+		verifCover("broken-client")
+		verifAssert(led.clean() || (escaped && entry >= 2), "C13: a compressor was lost, released twice or used after release")
+		return
+	}
+	if kind >= 2 && (entry <= 1 || entry == 4) {
 		verifAssert(recovered == 1 && !escaped, "C07: the panic was not handed to the recover handler exactly once")
 		expected += "rec"
 	}
@@ -200,14 +218,17 @@ func H_C07(entry, cenc, renc, kind, provider int) {
 		return
 	}
 	// recorded finding: through ServeHTTP the route's own "encoding off" is ignored
-	verifKnown("servehttp-route-override", entry == 1 && cenc == 1 && renc == 1 && kind != 1)
+	verifKnown("servehttp-route-override", (entry == 1 && cenc == 1 || entry == 4) && renc == 1 && kind != 1)
 	ce := vHdr1(rec, "Content-Encoding")
 	verifObserveStr("content-encoding", ce)
 	verifObserveInt("status", rec.code())
 	gz, df := refWantsCoding(ae)
 	enabled := cenc == 1
 	if entry <= 1 && kind != 1 && renc != 0 {
-		enabled = renc == 2
+		enabled = renc == 2 // the route's own setting overrides the container's
+	}
+	if entry == 4 {
+		enabled = true // the outer container encodes; the inner one must not encode again
 	}
 	if preset {
 		verifCover("preset")
